@@ -28,6 +28,7 @@ typedef struct {
         int dbytes, block, wordsz;      /* digest bytes, block bytes, 4 or 8 */
         int be_words;                   /* digest words are big-endian values of the standard bytes */
         void (*ctx_init)(void *ctx);
+        int (*ctx_view)(void *ctx, int what);   /* public accessor macros: 0 isal_hash_ctx_complete, 1 _processing, 2 _status, 3 _error */
         hfam_t fam[8]; int nfam;
         hi_init_f i_init; hi_submit_f i_submit; hi_flush_f i_flush;     /* isal_ API */
         h_init_f l_init; h_submit_f l_submit; h_flush_f l_flush;        /* legacy API */
